@@ -96,8 +96,8 @@ def subset_structure(rng):
 
 
 def random_grid(rng):
-    step = rng.choice((0.1, 0.25, 0.5, 1.0, 0.2, 2.0, 0.05))
-    mn = rng.choice((0.0, 0.0, 1.0, 2.5, -1.0, 4.0))
+    step = rng.choice((0.1, 0.25, 0.5, 1.0, 0.2, 2.0, 0.05, 0.125, 0.375, 0.025, 0.333))
+    mn = rng.choice((0.0, 0.0, 1.0, 2.5, -1.0, 4.0, 0.125, 1.005))
     mx = mn + step * rng.randrange(4, 60)
     return (mn, round(mx, 6), step)
 
@@ -145,6 +145,9 @@ def run_case(case, tier):
     for gr in [grid] + [random_grid(rng) for _ in range(2)]:
         prof = mol.get_charge_profile(conformation="AVR", grid=gr)
         counts["profiles"] = counts.get("profiles", 0) + 1
+        og = charge.check_grid([p_[0] for p_ in prof], *gr)
+        if og:
+            viol.append({"cls": "charge-profile-" + og[0], "msg": "get_charge_profile: " + og[1]})
         charge.check_charge_profile(prof, groups, viol, counts, "api")
     # every single conformation too
     for name in run.rec["names"][:3]:
@@ -165,7 +168,16 @@ def run_case(case, tier):
     if not parsed["charge"]:
         viol.append({"cls": "charge-table-missing", "msg": "no charge table in the .pka file"})
     else:
-        charge.check_charge_profile(parsed["charge"], groups, viol, counts, "text")
+        # the table stands on the grid that was asked for (pH printed to two decimals); the charges are those
+        # at the grid points themselves
+        want = hh.grid_points(*grid)
+        rows = parsed["charge"]
+        if [round(r_[0], 2) for r_ in rows] != [round(v, 2) for v in want]:
+            viol.append({"cls": "charge-table-not-on-the-requested-grid", "msg": "-g %r: %d rows %r ..., grid has %d points %r ..." % (
+                grid, len(rows), [r_[0] for r_ in rows[:3]], len(want), [round(v, 4) for v in want[:3]])})
+        else:
+            rows = [(v, r_[1], r_[2]) for v, r_ in zip(want, rows)]
+        charge.check_charge_profile(rows, groups, viol, counts, "text")
         counts["text_tables"] = 1
     if parsed["pi"] is None:
         viol.append({"cls": "pi-line-missing", "msg": "no pI line in the .pka file"})
@@ -188,7 +200,14 @@ def run_case(case, tier):
             cgroups = run.rec["confs"][name]["groups"]
             counts["per_conformation_files"] = counts.get("per_conformation_files", 0) + 1
             if cparsed["charge"]:
-                charge.check_charge_profile(cparsed["charge"], cgroups, viol, counts, "text")
+                crows = cparsed["charge"]
+                cwant = hh.grid_points(*grid)
+                if [round(r_[0], 2) for r_ in crows] != [round(v, 2) for v in cwant]:
+                    viol.append({"cls": "per-conformation-file:charge-table-not-on-the-requested-grid",
+                                 "msg": "file written for %s, -g %r: %d rows, grid has %d points" % (name, grid, len(crows), len(cwant))})
+                else:
+                    crows = [(v, r_[1], r_[2]) for v, r_ in zip(cwant, crows)]
+                charge.check_charge_profile(crows, cgroups, viol, counts, "text")
             if cparsed["pi"] is not None:
                 nv = len(viol)
                 charge.check_pi(cparsed["pi"], cgroups, 0.0, 14.0, 1e-4, viol, counts,
